@@ -8,7 +8,7 @@ ID = "C17"
 LEVEL = "exploration"
 RULE = ("three described classes (AutoLength over a Data length, AutoLength over a repeated count, Auto(func) over an Int) x generic "
         "and generated code (all 4 combinations of generate_for_pack/unpack): ALL histories of <=5 (quick) / <=6 (thorough) "
-        "operations over a 12-operation alphabet {construct, construct with the keyword, unpack raw1/raw2, set tracked v1/v2, set "
+        "operations over a 13-operation alphabet {construct, construct with the keyword (a non-zero value; the value 0 together with the tracked field), unpack raw1/raw2, set tracked v1/v2, set "
         "described v1/v2, del described, pack, read, pack+read} executed from scratch (exhaustive), plus Hypothesis-generated "
         "histories up to 50 operations; oracle: two-variable model (tracked value, optional explicit value): the attribute reads "
         "the explicit value if set and not deleted else the computed one, pack() serialises what the attribute reads, instances "
@@ -36,14 +36,14 @@ class A(Packet):
 OPTS = [{"generate_for_pack": gp, "generate_for_unpack": gu} for gp in (True, False) for gu in (True, False)]
 # per class: described attr, tracked attr, tracked values, described values, raws (raw, tracked value parsed), compute, encode
 SPEC = {
-    "L": dict(desc="length", tracked="a", tv=[b"xy", b"abcd"], dv=[1, 7], default=b"",
+    "L": dict(desc="length", tracked="a", tv=[b"xy", b"abcd"], dv=[0, 7], default=b"",
               raws=[(b"\x02pq", b"pq"), (b"\x00", b"")], compute=len, enc=lambda d, t: bytes([d]) + t),
     "C": dict(desc="count", tracked="s", tv=[[5], [1, 2, 3]], dv=[0, 2], default=[],
               raws=[(b"\x02\x07\x08", [7, 8]), (b"\x01\x09", [9])], compute=len, enc=lambda d, t: bytes([d]) + bytes(t)),
     "A": dict(desc="v", tracked="h", tv=[3, 200], dv=[0, 9], default=0,
               raws=[(b"\x04\x63", 4), (b"\x10\x21", 16)], compute=lambda h: (h * 2 + 1) & 0xff, enc=lambda d, t: bytes([t, d])),
 }
-ALPHABET = ["new", "new_kw", "unpack0", "unpack1", "set_t0", "set_t1", "set_d0", "set_d1", "del_d", "pack", "read", "pack_read"]
+ALPHABET = ["new", "new_kw", "new_kw0", "unpack0", "unpack1", "set_t0", "set_t1", "set_d0", "set_d1", "del_d", "pack", "read", "pack_read"]
 
 
 def shards(tier):
@@ -64,7 +64,7 @@ def nontrivial(hist):
             seen_set = True
         elif o == "del_d" and seen_set:
             seen_del = True
-        elif o in ("new", "new_kw") or o.startswith("unpack"):
+        elif o in ("new", "new_kw", "new_kw0") or o.startswith("unpack"):
             seen_set = seen_del = False
     for i, o in enumerate(hist):
         if o.startswith("unpack") and any(x.startswith("set_") for x in hist[i + 1:]):
@@ -89,6 +89,9 @@ def run_history(ctx, module, cname, hist, describe):
                 pkt = cls(); T, E = sp["default"], None
             elif op == "new_kw":
                 pkt = cls(**{sp["desc"]: sp["dv"][1]}); T, E = sp["default"], sp["dv"][1]
+            elif op == "new_kw0":
+                # the keyword names the described field AND the tracked one: an explicit 0 next to a non-empty tracked value
+                pkt = cls(**{sp["desc"]: sp["dv"][0], sp["tracked"]: sp["tv"][0]}); T, E = sp["tv"][0], sp["dv"][0]
             elif op.startswith("unpack"):
                 raw, tv = sp["raws"][int(op[-1])]
                 pkt = cls.unpack(raw); T, E = tv, None
